@@ -717,38 +717,71 @@ theorem rendersNoEol_parse (n len : Nat) (hn : 1 ≤ len) (eol : Bytes) (he : Is
   obtain ⟨s1, s2, B, hs1, hs2, hB, hp, rfl⟩ := hr
   exact conflict_roundtrip_noeol n len hn eol he _ _ B h hs1 hs2 hB hp hnum hunks pre
 
-theorem snapshot_renders_eol (diffFn : DiffFn) (len : Nat) (hn : 1 ≤ len) (eol : Bytes)
+theorem match_git_jj {β : Type} (style : Style) (sides : List Term) (A : Term → Term → Term → β) (J : β) :
+    (style = .git → sides.length ≠ 3) →
+    (match style, sides with
+      | .git, [left, base, right] => A left base right
+      | _, _ => J) = J := by
+  intro hnot
+  split
+  · exact absurd rfl (hnot rfl)
+  · rfl
+
+/-- for every style/arity combination except Git with 3 terms the jj-style writer is used -/
+theorem materializeConflict_jj (diffFn : DiffFn) (style : Style) (len : Nat) (labels : List Bytes)
+    (eol : Bytes) (h : List Bytes) (ci nc : Nat) (hnot : style = .git → h.length ≠ 3)
+    (hl : LabelsOK labels) :
+    materializeConflict diffFn style len labels eol h ci nc =
+      if allSidesHaveEol h then
+        materializeJJ diffFn (buildHunkSides h labels) (infoText ci nc) style len eol ++ eol
+      else
+        materializeJJ diffFn ((buildHunkSides h labels).map
+          (fun t => { t with contents := t.contents ++ eol })) (infoText ci nc) style len eol := by
+  have hm := (buildHunkSides_spec hl h).1
+  have hlen : (buildHunkSides h labels).length = h.length := by
+    rw [← List.length_map (f := (·.contents)), hm]
+  unfold materializeConflict
+  by_cases hall : allSidesHaveEol h = true
+  · simp only [hall, if_true]
+    exact congrArg (· ++ eol) (match_git_jj style (buildHunkSides h labels)
+      (fun l b r => materializeGit l b r len eol) _ (by rw [hlen]; exact hnot))
+  · simp only [hall, Bool.false_eq_true, if_false]
+    exact match_git_jj style _ (fun l b r => materializeGit l b r len eol) _
+      (by rw [List.length_map, hlen]; exact hnot)
+
+theorem nodiff_renders_eol (diffFn : DiffFn) (style : Style) (hs : style.allowsDiff = false)
+    (len : Nat) (hn : 1 ≤ len) (eol : Bytes)
     (he : IsEol eol) (labels : List Bytes) (hl : LabelsOK labels) (h : List Bytes)
+    (hnot : style = .git → h.length ≠ 3)
     (hodd : h.length % 2 = 1) (hc : ∀ c ∈ h, ContentOK len c)
     (hall : allSidesHaveEol h = true) (ci nc : Nat) :
-    RendersEol len eol h (materializeConflict diffFn .snapshot len labels eol h ci nc) := by
+    RendersEol len eol h (materializeConflict diffFn style len labels eol h ci nc) := by
   have hm := (buildHunkSides_spec hl h).1
   have hlen : (buildHunkSides h labels).length % 2 = 1 := by
     rw [← List.length_map (f := (·.contents)), hm]; exact hodd
-  obtain ⟨B, hmat, hB, hp⟩ := jj_nodiff_conflict diffFn .snapshot rfl len hn eol he (infoText ci nc)
+  obtain ⟨B, hmat, hB, hp⟩ := jj_nodiff_conflict diffFn style hs len hn eol he (infoText ci nc)
     (buildHunkSides h labels) hlen (sides_ok_eol hl hc hall)
   refine ⟨_, _, B, Clean_infoText ci nc, Clean_infoEnds ci nc, hB, hp.trans hm, ?_⟩
-  unfold materializeConflict
-  simp only [hall, if_true]
-  rw [show (ascii "conflict " ++ dec ci ++ ascii " of " ++ dec nc) = infoText ci nc from rfl, hmat]
+  rw [materializeConflict_jj diffFn style len labels eol h ci nc hnot hl]
+  simp only [hall, if_true, hmat]
   simp [List.append_assoc]
 
-theorem snapshot_renders_noeol (diffFn : DiffFn) (len : Nat) (hn : 1 ≤ len) (eol : Bytes)
+theorem nodiff_renders_noeol (diffFn : DiffFn) (style : Style) (hs : style.allowsDiff = false)
+    (len : Nat) (hn : 1 ≤ len) (eol : Bytes)
     (he : IsEol eol) (labels : List Bytes) (hl : LabelsOK labels) (h : List Bytes)
+    (hnot : style = .git → h.length ≠ 3)
     (hodd : h.length % 2 = 1) (hc : ∀ c ∈ h, ContentOK len c)
     (hall : allSidesHaveEol h = false) (ci nc : Nat) :
-    RendersNoEol len eol h (materializeConflict diffFn .snapshot len labels eol h ci nc) := by
+    RendersNoEol len eol h (materializeConflict diffFn style len labels eol h ci nc) := by
   have hm := sides_pad_contents hl h eol
   have hlen : ((buildHunkSides h labels).map
       (fun t => { t with contents := t.contents ++ eol })).length % 2 = 1 := by
     rw [← List.length_map (f := (·.contents)), hm]; simpa using hodd
-  obtain ⟨B, hmat, hB, hp⟩ := jj_nodiff_conflict diffFn .snapshot rfl len hn eol he (infoText ci nc)
+  obtain ⟨B, hmat, hB, hp⟩ := jj_nodiff_conflict diffFn style hs len hn eol he (infoText ci nc)
     _ hlen (sides_ok_pad hl hc he)
   refine ⟨_, _, B, Clean_infoText ci nc, Clean_infoEnds ci nc, hB, hp.trans hm, ?_⟩
-  unfold materializeConflict
-  simp only [hall]
-  rw [show (ascii "conflict " ++ dec ci ++ ascii " of " ++ dec nc) = infoText ci nc from rfl]
-  simpa using hmat
+  rw [materializeConflict_jj diffFn style len labels eol h ci nc hnot hl]
+  simp only [hall, Bool.false_eq_true, if_false, hmat]
 
 def startsResolved : List (List Bytes) → Bool
   | [_] :: _ => true
@@ -930,4 +963,130 @@ theorem parse_materialize_of_render (diffFn : DiffFn) (style : Style) (n len : N
     split
     · rename_i h2; simp only [h2, if_true, List.append_nil] at hcol; rw [hcol]
     · rename_i h2; simp only [h2, Bool.false_eq_true, if_false] at hcol; rw [hcol]
+
+theorem git_content (len : Nat) (ls : List Bytes) (h : ∀ l ∈ ls, parseMarker l len = none)
+    (st : GitState) (l b r : Bytes) (more : List Bytes) :
+    parseGitLoop len st l b r (ls ++ more) =
+      match st with
+      | .left => parseGitLoop len st (l ++ ls.flatten) b r more
+      | .base => parseGitLoop len st l (b ++ ls.flatten) r more
+      | .right => parseGitLoop len st l b (r ++ ls.flatten) more := by
+  induction ls generalizing l b r with
+  | nil => cases st <;> simp
+  | cons x ls ih =>
+    have hx := h x (by simp)
+    have hls : ∀ l ∈ ls, parseMarker l len = none := fun y hy => h y (List.mem_cons_of_mem _ hy)
+    cases st <;> simp only [List.cons_append, parseGitLoop, hx, ih hls, List.flatten_cons, List.append_assoc]
+
+/-- body of a Git-style conflict -/
+def gitBody (len : Nat) (eol : Bytes) (left base right : Term) : Bytes :=
+  left.contents ++ (writeMarker .gitAncestor len base.label ++ eol ++ base.contents ++
+    (writeMarker .gitSeparator len [] ++ eol ++ right.contents))
+
+theorem parseGit_gitBody (len : Nat) (hn : 1 ≤ len) (eol : Bytes) (he : IsEol eol)
+    (left base right : Term) (hl : TermOK len left) (hb : TermOK len base) (hr : TermOK len right) :
+    parseGit (gitBody len eol left base right) len = [left.contents, base.contents, right.contents] := by
+  unfold parseGit gitBody
+  rw [linesWT_append_of_EndsLF hl.ends, linesWT_section _ _ _ _ _ _ hb.label he hb.ends]
+  have h3 := linesWT_section .gitSeparator len [] eol right.contents [] NoLF_nil he hr.ends
+  simp only [List.append_nil] at h3
+  rw [h3, git_content len _ hl.content]
+  simp only [parseGitLoop, parseMarker_markerLine _ len hn _ _ he, if_true]
+  rw [git_content len _ hb.content]
+  simp only [parseGitLoop, parseMarker_markerLine _ len hn _ _ he, if_true]
+  rw [git_content len _ hr.content]
+  simp [parseGitLoop, linesWT_flatten, linesWT]
+
+theorem parseConflictHunk_gitBody (len : Nat) (hn : 1 ≤ len) (eol : Bytes) (he : IsEol eol)
+    (left base right : Term) (hl : TermOK len left) (hb : TermOK len base) (hr : TermOK len right) :
+    parseConflictHunk (gitBody len eol left base right) len =
+      [left.contents, base.contents, right.contents] := by
+  rw [← parseGit_gitBody len hn eol he left base right hl hb hr]
+  unfold parseConflictHunk
+  have hlines : linesWT (gitBody len eol left base right) = linesWT left.contents ++
+      ((writeMarker .gitAncestor len base.label ++ eol) ::
+        (linesWT base.contents ++ linesWT (writeMarker .gitSeparator len [] ++ eol ++ right.contents))) := by
+    unfold gitBody
+    rw [linesWT_append_of_EndsLF hl.ends, linesWT_section _ _ _ _ _ _ hb.label he hb.ends]
+  rw [hlines]
+  cases hc : linesWT left.contents with
+  | nil => simp [parseMarker_markerLine _ len hn _ _ he]
+  | cons x xs =>
+    have : parseMarker x len = none := hl.content x (by simp [hc])
+    simp [this]
+
+theorem BodyOK_gitBody (len : Nat) (hn : 1 ≤ len) (eol : Bytes) (he : IsEol eol)
+    (left base right : Term) (hl : TermOK len left) (hb : TermOK len base) (hr : TermOK len right) :
+    BodyOK len (gitBody len eol left base right) := by
+  unfold gitBody
+  exact BodyOK_append (BodyOK_content hl.ends hl.content)
+    (BodyOK_append (BodyOK_append (BodyOK_markerLine .gitAncestor len hn _ _ hb.label he (by decide))
+      (BodyOK_content hb.ends hb.content))
+    (BodyOK_append (BodyOK_markerLine .gitSeparator len hn _ _ NoLF_nil he (by decide))
+      (BodyOK_content hr.ends hr.content)))
+
+theorem materializeGit_eq (len : Nat) (eol : Bytes) (left base right : Term) :
+    materializeGit left base right len eol =
+      writeMarker .conflictStart len left.label ++ eol ++
+        (gitBody len eol left base right ++ writeMarker .conflictEnd len right.label) := by
+  simp [materializeGit, gitBody, List.append_assoc]
+
+theorem length_three {α : Type} {l : List α} (h : l.length = 3) : ∃ a b c, l = [a, b, c] := by
+  match l, h with
+  | [a, b, c], _ => exact ⟨a, b, c, rfl⟩
+
+/-- the materialization of one unresolved hunk, with the sides made explicit -/
+theorem materializeConflict_git3 (diffFn : DiffFn) (len : Nat) (labels : List Bytes) (eol : Bytes)
+    (h : List Bytes) (ci nc : Nat) (l b r : Term)
+    (hs : (if allSidesHaveEol h then buildHunkSides h labels
+      else (buildHunkSides h labels).map (fun t => { t with contents := t.contents ++ eol })) = [l, b, r]) :
+    materializeConflict diffFn .git len labels eol h ci nc =
+      if allSidesHaveEol h then materializeGit l b r len eol ++ eol else materializeGit l b r len eol := by
+  unfold materializeConflict
+  simp only [hs]
+
+theorem git_renders_eol3 (diffFn : DiffFn) (len : Nat) (hn : 1 ≤ len) (eol : Bytes)
+    (he : IsEol eol) (labels : List Bytes) (hl : LabelsOK labels) (h : List Bytes)
+    (h3 : h.length = 3) (hc : ∀ c ∈ h, ContentOK len c)
+    (hall : allSidesHaveEol h = true) (ci nc : Nat) :
+    RendersEol len eol h (materializeConflict diffFn .git len labels eol h ci nc) := by
+  obtain ⟨hm, hlab⟩ := buildHunkSides_spec hl h
+  have hlen : (buildHunkSides h labels).length = 3 := by
+    rw [← List.length_map (f := (·.contents)), hm]; exact h3
+  obtain ⟨l, b, r, hsides⟩ := length_three hlen
+  have hok := sides_ok_eol hl hc hall
+  rw [hsides] at hok hlab hm
+  have hL := hok l (by simp)
+  have hB := hok b (by simp)
+  have hR := hok r (by simp)
+  refine ⟨l.label, r.label, gitBody len eol l b r, hlab l (by simp), hlab r (by simp),
+    BodyOK_gitBody len hn eol he l b r hL hB hR, ?_, ?_⟩
+  · rw [parseConflictHunk_gitBody len hn eol he l b r hL hB hR, ← hm]; rfl
+  · rw [materializeConflict_git3 diffFn len labels eol h ci nc l b r (by simp [hall, hsides])]
+    simp [hall, materializeGit_eq, List.append_assoc]
+
+theorem git_renders_noeol3 (diffFn : DiffFn) (len : Nat) (hn : 1 ≤ len) (eol : Bytes)
+    (he : IsEol eol) (labels : List Bytes) (hl : LabelsOK labels) (h : List Bytes)
+    (h3 : h.length = 3) (hc : ∀ c ∈ h, ContentOK len c)
+    (hall : allSidesHaveEol h = false) (ci nc : Nat) :
+    RendersNoEol len eol h (materializeConflict diffFn .git len labels eol h ci nc) := by
+  have hlab0 := (buildHunkSides_spec hl h).2
+  have hm := sides_pad_contents hl h eol
+  have hlen : ((buildHunkSides h labels).map
+      (fun t => { t with contents := t.contents ++ eol })).length = 3 := by
+    rw [← List.length_map (f := (·.contents)), hm]; simpa using h3
+  obtain ⟨l, b, r, hsides⟩ := length_three hlen
+  have hok := sides_ok_pad (len := len) hl hc he
+  have hlab : ∀ t ∈ (buildHunkSides h labels).map
+      (fun t => { t with contents := t.contents ++ eol }), Clean t.label := by
+    intro t ht; obtain ⟨t0, ht0, rfl⟩ := List.mem_map.mp ht; exact hlab0 t0 ht0
+  rw [hsides] at hok hlab hm
+  have hL := hok l (by simp)
+  have hB := hok b (by simp)
+  have hR := hok r (by simp)
+  refine ⟨l.label, r.label, gitBody len eol l b r, hlab l (by simp), hlab r (by simp),
+    BodyOK_gitBody len hn eol he l b r hL hB hR, ?_, ?_⟩
+  · rw [parseConflictHunk_gitBody len hn eol he l b r hL hB hR, ← hm]; rfl
+  · rw [materializeConflict_git3 diffFn len labels eol h ci nc l b r (by simp [hall, hsides])]
+    simp [hall, materializeGit_eq]
 end JjModel.Conflicts
